@@ -24,7 +24,7 @@ func TestVerifC10(t *testing.T) {
 		Assumptions: []string{"path oracle: path.IsAbs(q) && path.Clean(q)==q && q == (IsAbs(p) ? Clean(p) : Join(cleanStart,p)), written with package path only", "error text compared on the wire"},
 		Units: func(tier vfTier, seed uint64) int {
 			if tier == vfThorough {
-				return 5*5*8 + 20
+				return 5*5*80 + 200
 			}
 			return 5*5 + 5
 		},
